@@ -78,8 +78,9 @@ class Engine:
                     not target.func.name.startswith('__') and (
                         tm == fm or tm == fm.rpartition('.')[0] or
                         fm == tm.rpartition('.')[0] or
-                        tm.rpartition('.')[0] == fm.rpartition('.')[0]) and \
-                    not target.func.is_generator:
+                        tm.rpartition('.')[0] == fm.rpartition('.')[0]):
+                # (a generator among them is only ever expanded where a
+                # `for` iterates it - never as a plain call)
                 return True
             if extra is not None:
                 return bool(extra(builder, call, target, frame))
